@@ -345,6 +345,102 @@ def run(tier, seed, replay):
                 viol("failure_exit_status", rp, "fault %s in the default file of a module with a cfg_attr(path) alternative: exit status %d, expected 1" % (kname, pr.returncode))
             if not pr.stderr.strip():
                 viol("no_diagnostic", rp, "fault %s in the default file of a module with a cfg_attr(path) alternative: nothing on stderr" % kname)
+    # ---- an AMBIGUOUS module (x.rs and x/mod.rs both there) inside the directory a file owns, with a further file at the location the
+    # documented fallback would look at: the ambiguity is a fault all the same (no retry may forgive it)
+    pd = os.path.join(base, "ambig_fallback")
+    AMB = {
+        "root_owns_dir": {"lib.rs": "mod x;\n" + UNF % "root", "lib/x.rs": UNF % "in_lib_x", "lib/x/mod.rs": UNF % "in_lib_x_mod", "x.rs": UNF % "sibling"},
+        "child_owns_dir": {"lib.rs": "mod a;\n" + UNF % "root", "a.rs": "mod x;\n" + UNF % "a", "a/x.rs": UNF % "ax", "a/x/mod.rs": UNF % "axm", "x.rs": UNF % "sibling"},
+        "child_owns_dir_modrs_fallback": {"lib.rs": "mod a;\n" + UNF % "root", "a.rs": "mod x;\n" + UNF % "a", "a/x.rs": UNF % "ax", "a/x/mod.rs": UNF % "axm", "x/mod.rs": UNF % "sibling"},
+        "inline_parent": {"lib.rs": "mod a;\n" + UNF % "root", "a.rs": "mod i {\n    mod x;\n}\n" + UNF % "a", "a/i/x.rs": UNF % "aix", "a/i/x/mod.rs": UNF % "aixm", "i/x.rs": UNF % "sibling", "x.rs": UNF % "sib2"},
+    }
+    for aname, files in AMB.items():
+        for mode in MODES:
+            shutil.rmtree(pd, ignore_errors=True)
+            for rel, t in files.items():
+                os.makedirs(os.path.dirname(os.path.join(pd, rel)), exist_ok=True)
+                open(os.path.join(pd, rel), "w").write(t)
+            before = tree_files(pd)
+            pr = subprocess.run([exe] + MODES[mode] + ["lib.rs"], cwd=pd, env=env, stdout=subprocess.PIPE, stderr=subprocess.PIPE, timeout=60)
+            after = tree_files(pd)
+            rp = {"case": {"kind": "ambiguous_with_fallback_file:" + aname, "mode": mode}, "files": files, "rc": pr.returncode, "stderr": pr.stderr.decode("utf-8", "replace")[-400:]}
+            nontrivial.add("ambig_fallback_%s_%s" % (aname, mode))
+            if after != before:
+                viol("failing_root_modified", dict(rp, changed=sorted(k for k in after if after[k] != before.get(k))), "module x is found at both x.rs and x/mod.rs (%s) but files of the crate were rewritten" % aname)
+            if pr.returncode != 1:
+                viol("failure_exit_status", rp, "ambiguous module with a file at the fallback location (%s): exit status %d, expected 1" % (aname, pr.returncode))
+            if not pr.stderr.strip():
+                viol("no_diagnostic", rp, "ambiguous module with a file at the fallback location (%s): nothing on stderr" % aname)
+    # ---- required_version in every spelling: a requirement the running version does not meet aborts the run before anything
+    # is parsed or written; one it meets changes nothing
+    vout = subprocess.run([exe, "--version"], env=env, stdout=subprocess.PIPE, stderr=subprocess.PIPE, timeout=60).stdout.decode()
+    vm = re.search(r"(\d+)\.(\d+)\.(\d+)", vout)
+    if vm:
+        V = tuple(int(x) for x in vm.groups())
+        M, m, pt = V
+
+        def lower(parts):
+            return tuple(list(parts) + [0] * (3 - len(parts)))
+
+        def bump(parts):            # the first version above every version that matches the partial version
+            q = list(parts)
+            q[-1] += 1
+            return lower(q)
+
+        def meets(req):
+            for comp in req.split(","):
+                comp = comp.strip()
+                if comp == "*":
+                    continue
+                mo = re.match(r"^(=|>=|<=|>|<|~|\^)?\s*(\d+)(?:\.(\d+|\*))?(?:\.(\d+|\*))?$", comp)
+                op = mo.group(1) or "="          # rustfmt reads a bare version as an exact requirement on the parts given
+                parts = [int(x) for x in mo.groups()[1:] if x is not None and x != "*"]
+                lo, hi = lower(parts), bump(parts)
+                if op == "=":
+                    ok = lo <= V < hi
+                elif op == ">":
+                    ok = V >= hi
+                elif op == ">=":
+                    ok = V >= lo
+                elif op == "<":
+                    ok = V < lo
+                elif op == "<=":
+                    ok = V < hi
+                elif op == "~":
+                    ok = lo <= V < (bump(parts[:2]) if len(parts) >= 2 else bump(parts))
+                else:
+                    ok = lo <= V < ((parts[0] + 1, 0, 0) if parts[0] > 0 else bump(parts[:2]) if len(parts) >= 2 else bump(parts))
+                if not ok:
+                    return False
+            return True
+        reqs = ["%d.%d.%d" % V, "%d.%d" % (M, m), "%d" % M, "%d.%d" % (M, m - 1), "%d.%d" % (M, m + 1), "%d.%d.%d" % (M, m, pt + 1), "%d.%d.%d" % (M, m - 1, 9), "%d" % (M + 1), "%d" % (M - 1),
+                "=%d.%d" % (M, m - 1), ">=%d.%d" % (M, m - 1), ">%d.%d" % (M, m), "<%d.%d" % (M, m), "<=%d.%d" % (M, m), "~%d.%d" % (M, m - 1), "~%d.%d" % (M, m), "^%d.%d" % (M, m - 1), "^%d.%d" % (M, m + 1),
+                "^%d" % (M + 1), "%d.*" % M, "%d.%d.*" % (M, m - 1), "*", ">=%d.%d, <%d.%d" % (M, m - 1, M, m), ">=%d.%d, <%d" % (M, m - 1, M + 1), "0.0.1"]
+        pd = os.path.join(base, "reqver")
+        for req in reqs:
+            for mode in ("files", "check"):
+                shutil.rmtree(pd, ignore_errors=True)
+                os.makedirs(pd)
+                files = {"rustfmt.toml": "required_version = \"%s\"\n" % req, "lib.rs": "mod a;\n" + UNF % "root", "a.rs": UNF % "a"}
+                for rel, t in files.items():
+                    open(os.path.join(pd, rel), "w").write(t)
+                before = tree_files(pd)
+                pr = subprocess.run([exe] + MODES[mode] + ["lib.rs"], cwd=pd, env=env, stdout=subprocess.PIPE, stderr=subprocess.PIPE, timeout=60)
+                after = tree_files(pd)
+                want_ok = meets(req)
+                rp = {"case": {"kind": "required_version", "requirement": req, "running": list(V), "mode": mode}, "files": files, "rc": pr.returncode, "stderr": pr.stderr.decode("utf-8", "replace")[-400:]}
+                nontrivial.add("reqver_%s_%s" % (req, mode))
+                if not want_ok:
+                    if after != before:
+                        viol("failing_root_modified", rp, "required_version = %r is not met by %d.%d.%d but files were rewritten" % ((req,) + V))
+                    if pr.returncode != 1:
+                        viol("failure_exit_status", rp, "required_version = %r is not met by %d.%d.%d: exit status %d, expected 1" % ((req,) + V + (pr.returncode,)))
+                    if not pr.stderr.strip():
+                        viol("no_diagnostic", rp, "required_version = %r is not met: nothing on stderr" % req)
+                else:
+                    changed = after != before
+                    if (mode == "files" and (not changed or pr.returncode != 0)) or (mode == "check" and (changed or pr.returncode != 1)):
+                        viol("met_requirement_rejected", rp, "required_version = %r is met by %d.%d.%d but the run did not go ahead (exit %d)" % ((req,) + V + (pr.returncode,)))
     # ---- model: run_main on the same trees; observed traces
     exprs = []
     obs_traces = []
